@@ -116,6 +116,17 @@ def o_batch(ad, parts):
 DELTAS = (1e-1, 1e-2, 1e-3, 1e-4, 1e-6, 1e-9)
 
 
+def _not_continuous(dl, e, prev_dl, prev_e):
+    """continuity with (at least) linear decay, independent of the size of the parameters: from delta = 1e-2 on, going
+    from one delta to the next smaller one must shrink the deviation at least proportionally (slack factor 3);
+    a jump at the cutoff shows up as a deviation that stops shrinking"""
+    if not e < float("inf"):
+        return True
+    if prev_e is None or prev_dl > 1e-2:
+        return False
+    return e > max(1e-12, 3.0 * (dl / prev_dl) * prev_e)
+
+
 def probe_sample(ad, gen, d, base=None):
     """a cluster (node 0 at the origin, the others on the x<0 side) and a probe node (last) at (d,0,0):
     the probe is within r_max of node 0 only.  Features are those of `base` if given."""
@@ -156,17 +167,16 @@ def o_cutoff_radius(ad, gen):
         if not e <= TIGHT:
             fails.append(_fail("cutoff/" + tag, ad, S, rel_err=e, exception=ex, r_max=r, distance=d,
                                expected="a neighbour at or beyond r_max contributes nothing (= neighbour far away)"))
-    prev = None
+    prev, pdl = None, None
     for dl in DELTAS:
         S = probe_sample(ad, gen, r * (1 - dl), base)
         y, ex = _try(ad, S)
         e = float("inf") if ex else _err(y, far) / sc
         prof[f"inside-{dl:g}"] = e
-        bad = (not e <= max(1e-12, 1e3 * dl)) or (prev is not None and dl <= 1e-3 and e > prev + 1e-12)
-        if bad:
+        if _not_continuous(dl, e, pdl, prev):
             fails.append(_fail("cutoff/continuity", ad, S, rel_err=e, delta=dl, r_max=r, previous=prev, exception=ex,
-                               expected="|f(neighbour at r_max(1-delta)) - f(no neighbour)| <= 1e3*delta and decreasing"))
-        prev = e
+                               expected="|f(neighbour at r_max(1-delta)) - f(no neighbour)| shrinks at least linearly in delta"))
+        prev, pdl = e, dl
     return fails, prof
 
 
@@ -200,18 +210,18 @@ def o_cutoff_explicit_pos(ad, gen):
         if not e <= TIGHT:
             fails.append(_fail("cutoff/" + tag, ad, S, rel_err=e, exception=ex or ex0, r_max=r, distance=d,
                                expected="an edge of length >= r_max contributes nothing (= edge deleted)"))
-    prev = None
+    prev, pdl = None, None
     for dl in DELTAS:
         S = probe_sample(ad, gen, r * (1 - dl), base)
         y, ex = _try(ad, S)
         y0, ex0 = _try(ad, _drop_edges(S, keep))
         e = float("inf") if (ex or ex0) else _err(y, y0) / _scale(y0)
         prof[f"inside-{dl:g}"] = e
-        if (not e <= max(1e-12, 1e3 * dl)) or (prev is not None and dl <= 1e-3 and e > prev + 1e-12):
+        if _not_continuous(dl, e, pdl, prev):
             fails.append(_fail("cutoff/continuity", ad, S, rel_err=e, delta=dl, r_max=r, previous=prev,
                                exception=ex or ex0,
-                               expected="|f(edge of length r_max(1-delta)) - f(edge deleted)| <= 1e3*delta, decreasing"))
-        prev = e
+                               expected="|f(edge of length r_max(1-delta)) - f(edge deleted)| shrinks at least linearly in delta"))
+        prev, pdl = e, dl
     return fails, prof
 
 
@@ -228,7 +238,7 @@ def o_zero_scalars(ad, gen):
     keep[0] = False
     y0, ex0 = _try(ad, _drop_edges(S, keep))
     row = {k: S["edge"][k][0].clone() for k in ad.edge_scalar_fields}
-    prev = None
+    prev, pdl = None, None
     for s in (0.0,) + DELTAS:
         T = Z.clone_sample(S)
         for k in ad.edge_scalar_fields:
@@ -240,11 +250,11 @@ def o_zero_scalars(ad, gen):
             if not e <= TIGHT:
                 fails.append(_fail("cutoff/zero-scalars", ad, T, rel_err=e, exception=ex or ex0,
                                    expected="edge with all-zero edge scalars contributes nothing (= edge deleted)"))
-        elif (not e <= max(1e-12, 1e3 * s)) or (prev is not None and s <= 1e-3 and e > prev + 1e-12):
+        elif _not_continuous(s, e, pdl, prev):
             fails.append(_fail("cutoff/continuity", ad, T, rel_err=e, delta=s, previous=prev, exception=ex or ex0,
-                               expected="contribution of an edge -> 0 linearly with its edge scalars"))
+                               expected="contribution of an edge -> 0 at least linearly with its edge scalars"))
         if s != 0.0:
-            prev = e
+            prev, pdl = e, s
     return fails, prof
 
 
